@@ -74,6 +74,8 @@ func opsCoq(ops []L2Op) []string {
 	return out
 }
 
+func init() { register("C06", genC06) }
+
 func genC06(seed uint64, tier string, outdir string) *Report {
 	rep := NewReport("C06", seed, tier)
 	rep.Rule = "a case is one delivery schedule run on a fresh branch; distinct by hash of the op list; non-trivial = at least one deposit SUCCESS and at least one NOOP or ERR"
